@@ -267,6 +267,24 @@ def desugar_for_ranges(b, ordinals, g, where):
         if kw != "for":
             raise Undecided("%s: R15 loop #%d is not a for loop" % (where, k))
         header = b[kwpos:bpos]
+        menum = re.match(r"for\s+\(\s*([A-Za-z_][A-Za-z0-9_]*)\s*,\s*([A-Za-z_][A-Za-z0-9_]*)\s*\)\s+in\s+([A-Za-z_][A-Za-z0-9_.]*)\.iter\(\)\.enumerate\(\)\s*$", header, re.S)
+        if menum:
+            # R30: `for (i, x) in VEC.iter().enumerate() { BODY }` => `{ let verif_vec_K = &VEC; let mut verif_next_K: usize = 0;
+            # while verif_next_K < verif_vec_K.len() { let (i, x) = (verif_next_K, &verif_vec_K[verif_next_K]); verif_next_K += 1; BODY } }`
+            ivar, xvar, vec = menum.group(1), menum.group(2), menum.group(3)
+            btoks = rustlex.lex(b)
+            bpairs = rustlex.match_brackets(btoks)
+            close = None
+            for o, c in bpairs.items():
+                if btoks[o].start == bpos:
+                    close = btoks[c].start
+            new_head = "{ let verif_vec_%d = &%s; let mut verif_next_%d: usize = 0;\n        while verif_next_%d < verif_vec_%d.len()\n        " % (k, vec, k, k, k)
+            body_intro = " let (%s, %s) = (verif_next_%d, &verif_vec_%d[verif_next_%d]); verif_next_%d += 1;" % (ivar, xvar, k, k, k, k)
+            b = b[:kwpos] + new_head + "{" + body_intro + b[bpos + 1:close + 1] + " }" + b[close + 1:]
+            g.rewrites.append({"item": where, "rule": "R30", "loop": k, "old": header.strip(),
+                               "new": (new_head + "{" + body_intro).strip(),
+                               "why": "for over `slice.iter().enumerate()` (no Verus support for the Enumerate adapter) -> index/while loop yielding (index, &element)"})
+            continue
         m = re.match(r"for\s+([A-Za-z_][A-Za-z0-9_]*)\s+in\s+(.*)$", header, re.S)
         if not m:
             raise Undecided("%s: R15 loop #%d: unsupported header %r" % (where, k, header))
